@@ -93,15 +93,34 @@ func checkRuneSetOps(t ev.TB, c *runeSetCase) {
 			}
 		}
 	}
+	failing := false
 	fail := func(i int, format string, args ...any) {
+		failing = true
 		ev.Fail(t, "runeset", c, "after op %d (%+v): %s", i, c.Ops[i], fmt.Sprintf(format, args...))
 	}
 	defer func() {
 		if r := recover(); r != nil {
+			if failing {
+				panic(r) // rapid's own unwinding of a failed check
+			}
 			ev.Fail(t, "runeset", c, "panic in RuneSet operation: %v", r)
 		}
 	}()
-	var emptyPage, inclTrue, inclFalse, deleted bool
+	var emptyPage, inclTrue, inclFalse, deleted, excluded bool
+	// pages a set ever had a rune on (Delete keeps the page, the round trip too)
+	pagesEver := [2]map[rune]bool{{}, {}}
+	hasEmptyPage := func(k int) bool {
+		live := map[rune]bool{}
+		for r := range models[k] {
+			live[r>>8] = true
+		}
+		for p := range pagesEver[k] {
+			if !live[p] {
+				return true
+			}
+		}
+		return false
+	}
 	for i, op := range c.Ops {
 		if !inRange(op.Rune) || op.Set < 0 || op.Set > 1 {
 			continue // not a case the generator produces
@@ -112,11 +131,13 @@ func checkRuneSetOps(t ev.TB, c *runeSetCase) {
 		case "add":
 			s.Add(op.Rune)
 			m[op.Rune] = true
+			pagesEver[op.Set][op.Rune>>8] = true
 		case "add_range":
 			for k := 0; k < op.N; k++ {
 				if r := op.Rune + rune(k); inRange(r) {
 					s.Add(r)
 					m[r] = true
+					pagesEver[op.Set][r>>8] = true
 					addProbe(r)
 				}
 			}
@@ -161,7 +182,16 @@ func checkRuneSetOps(t ev.TB, c *runeSetCase) {
 					break
 				}
 			}
-			if got := fontscan.VerifRuneSetIncludes(sets[a], sets[b]); got != want {
+			got := fontscan.VerifRuneSetIncludes(sets[a], sets[b])
+			if !got && want && hasEmptyPage(b) && ev.Known(kfIncludesEmpty) {
+				// matcher: the included set carries a page emptied by Delete
+				if !excluded {
+					ev.Excluded(kfIncludesEmpty)
+					excluded = true
+				}
+				continue
+			}
+			if got != want {
 				fail(i, "set%d.includes(set%d) = %v, but the model says %v (|set%d|=%d, |set%d|=%d)", a, b, got, want, a, len(models[a]), b, len(models[b]))
 			}
 			if want && len(models[b]) > 0 {
@@ -223,17 +253,22 @@ func checkScriptSet(t ev.TB, c *scriptSetCase) {
 	for i, s := range c.Scripts {
 		ss[i] = language.Script(s)
 	}
-	defer func() {
-		if r := recover(); r != nil {
-			ev.Fail(t, "scriptset", c, "panic: %v", r)
+	var (
+		b, in []byte
+		back  fontscan.ScriptSet
+		n     int
+		err   error
+	)
+	if p := guard(func() {
+		b = fontscan.VerifScriptSetSerialize(ss)
+		in = append([]byte{}, b...)
+		for _, x := range c.Tail {
+			in = append(in, byte(x))
 		}
-	}()
-	b := fontscan.VerifScriptSetSerialize(ss)
-	in := append([]byte{}, b...)
-	for _, x := range c.Tail {
-		in = append(in, byte(x))
+		back, n, err = fontscan.VerifScriptSetDeserialize(in)
+	}); p != nil {
+		ev.Fail(t, "scriptset", c, "panic: %v", p)
 	}
-	back, n, err := fontscan.VerifScriptSetDeserialize(in)
 	if err != nil || n != len(b) {
 		ev.Fail(t, "scriptset", c, "deserialize(serialize(ss)) read %d of %d bytes, err=%v", n, len(b), err)
 	}
@@ -276,29 +311,37 @@ type langSetCase struct {
 }
 
 func checkLangSet(t ev.TB, c *langSetCase) {
-	var ls fontscan.LangSet
-	defer func() {
-		if r := recover(); r != nil {
-			ev.Fail(t, "langset", c, "panic: %v", r)
-		}
-	}()
-	if len(c.Words) == 8 {
-		copy(ls[:], c.Words)
-	}
+	var (
+		ls, back fontscan.LangSet
+		got      [512]bool
+		b        []byte
+		n        int
+		err      error
+	)
 	model := map[int]bool{}
-	for _, l := range c.Langs {
-		ls.Add(fontscan.LangID(l))
-		model[l] = true
+	if p := guard(func() {
+		if len(c.Words) == 8 {
+			copy(ls[:], c.Words)
+		}
+		for _, l := range c.Langs {
+			ls.Add(fontscan.LangID(l))
+			model[l] = true
+		}
+		for l := 0; l < 512; l++ {
+			got[l] = ls.Contains(fontscan.LangID(l))
+		}
+		b = fontscan.VerifLangSetSerialize(ls)
+		back, n, err = fontscan.VerifLangSetDeserialize(append(append([]byte{}, b...), 1, 2, 3))
+	}); p != nil {
+		ev.Fail(t, "langset", c, "panic: %v", p)
 	}
 	if len(c.Words) != 8 {
 		for l := 0; l < 512; l++ {
-			if got := ls.Contains(fontscan.LangID(l)); got != model[l] {
-				ev.Fail(t, "langset", c, "Contains(%d) = %v, model says %v", l, got, model[l])
+			if got[l] != model[l] {
+				ev.Fail(t, "langset", c, "Contains(%d) = %v, model says %v", l, got[l], model[l])
 			}
 		}
 	}
-	b := fontscan.VerifLangSetSerialize(ls)
-	back, n, err := fontscan.VerifLangSetDeserialize(append(append([]byte{}, b...), 1, 2, 3))
 	if err != nil || n != len(b) {
 		ev.Fail(t, "langset", c, "deserialize(serialize(ls)) read %d of %d bytes, err=%v", n, len(b), err)
 	}
